@@ -111,7 +111,7 @@ func runStress(trNo int, mode, scratch string, seed int64, writers, perWriter, n
 		done := make(chan struct{})
 		err := c.StartDCPFeed(ctx, sgbucket.FeedArguments{ID: "stressck", Backfill: sgbucket.FeedResume, Dump: true, CheckpointPrefix: "cp", DoneChan: done},
 			func(e sgbucket.FeedEvent) bool {
-				if strings.HasPrefix(string(e.Key), "s") && (e.Opcode == sgbucket.FeedOpMutation || e.Opcode == sgbucket.FeedOpDeletion) {
+				if e.Opcode == sgbucket.FeedOpMutation || e.Opcode == sgbucket.FeedOpDeletion {
 					mu.Lock()
 					run.Cas = append(run.Cas, tr.C(e.Cas))
 					mu.Unlock()
